@@ -193,6 +193,24 @@ impl TryFrom<v1::Instance> for Instance {
             );
         }
 
+        // Invariant: every variable ID used in a function must be defined
+        let check_defined = |f: &Function, field: &'static str| -> Result<(), ParseError> {
+            for id in f.used_decision_variable_ids() {
+                as_variable_id(&decision_variables, id).map_err(|e| e.context(message, field))?;
+            }
+            Ok(())
+        };
+        check_defined(&objective, "objective")?;
+        for c in constraints.values() {
+            check_defined(&c.function, "constraints")?;
+        }
+        for c in removed_constraints.values() {
+            check_defined(&c.constraint.function, "removed_constraints")?;
+        }
+        for f in decision_variable_dependency.values() {
+            check_defined(f, "decision_variable_dependency")?;
+        }
+
         let context = (decision_variables, constraints);
         let constraint_hints = if let Some(hints) = value.constraint_hints {
             hints.parse_as(&context, message, "constraint_hints")?
